@@ -261,10 +261,27 @@ def run(chk):
 
 
 def replay(chk, path):
+    """re-run the recorded input on /repo's current tree; exit 1 (with a VIOLATION line) when the recorded failure reproduces"""
     obj = json.load(open(path))
+    rp = obj.get("replay") or {}
+    if "text" not in rp:
+        print(json.dumps(obj, indent=1)[:3000])
+        print("this replay file names a broken proof obligation / tie, not an input; re-run ./check C01")
+        return 0
     probe = Proc([common.build_probe()])
-    text = obj.get("replay", {}).get("text")
-    r = probe.call({"cmd": "asm", "files": {"main.asm": text}, "merge": False})
-    print(json.dumps({"text": text, "impl": impl_outcome(r), "recorded": obj.get("replay")}, indent=1))
+    text = rp["text"]
+    io = impl_outcome(probe.call({"cmd": "asm", "files": {"main.asm": text}, "merge": False}))
     probe.stop()
+    want = rp.get("spec", rp.get("expected"))
+    want = tuple(want) if isinstance(want, list) else want
+    if want is None:
+        bad = None
+    elif want[0] == "rejected":
+        bad = io[0] == "ok"
+    else:
+        bad = not (io[0] == "ok" and list(io[1]) == list(want[1]))
+    print(json.dumps({"text": text, "impl_now": io, "demanded": want, "reproduces": bad}, indent=1, default=str))
+    if bad:
+        print("VIOLATION property=C01 replay=%s" % path)
+        return 1
     return 0
